@@ -251,7 +251,7 @@ def attribute(case, o, kind, sym, parser_y):
     the root of the leaked structure (the parser builds bottom-up); it is named by the grammar
     nonterminal whose action allocated it when a yyparse frame is on its stack, else by the
     allocating function.  Reject: the function performing the bad free.  -> (key, [descriptions])"""
-    oc = outcome_class(o)
+    oc = "parse-error" if outcome_class(o) == "parse-error" else ("no-outcome" if o.outcome is None else "after-parse")
     if not o.sites:
         return "%s:%s:unattributed" % (kind, oc), []
     if kind != "leak":
@@ -492,16 +492,28 @@ def _run(ctx, drv, mon, workdir, t0):
         if k == "ok" and len(ctx.coverage["samples"]) < 5 and len(c.data) < 160 and c.cls.startswith(("runtime", "generated", "mutate")):
             ctx.sample({"class": c.cls, "input": c.data.decode("latin-1"), "outcome": o.outcome, "events": o.events, "monitor": o.monitor})
     ctx.count(evaluations=len(cases), nontrivial=len(nontrivial))
-    # attribution needs deeper stacks: re-run failing cases with backtrace() per allocation
+    # attribution needs deeper stacks: failing cases are grouped by the cheap site (one return address),
+    # the smallest of each group are re-run with backtrace() per allocation, and only those are keyed
     findings = {}
+    unattributed = 0
     if failing:
-        sub = [c for c, _, _ in failing][:300]
-        obs2 = run_mem(drv, mon, sub, workdir, timeout=timeout * 3, bt=True, tag="bt")
+        groups = {}
         for c, o, k in failing:
+            cheap = sym.resolve(o.sites[-1][1][:1])[0][0] if o.sites else "?"
+            groups.setdefault((k, outcome_class(o), cheap), []).append((c, o, k))
+        sub = []
+        for gk, lst in groups.items():
+            lst.sort(key=lambda t: len(t[0].data))
+            sub += lst[:25]
+            unattributed += max(0, len(lst) - 25)
+        obs2 = run_mem(drv, mon, [c for c, _, _ in sub], workdir, timeout=timeout * 3, bt=True, tag="bt")
+        for c, o, k in sub:
             o2 = obs2.get(c.id)
-            use = o2 if (o2 is not None and judge(c, o2)[0] == k) else o
-            key, desc = attribute(c, use, k, sym, parser_y)
-            findings.setdefault(key, []).append((c, use, k, desc))
+            if o2 is None or judge(c, o2)[0] != k:
+                unattributed += 1
+                continue
+            key, desc = attribute(c, o2, k, sym, parser_y)
+            findings.setdefault(key, []).append((c, o2, k, desc))
     known = set(k.get("key") for k in ctx.known if k.get("status", "known") == "known")
     shrink_budget = 30 if thorough else 10
     for key in sorted(findings):
@@ -584,5 +596,6 @@ def _run(ctx, drv, mon, workdir, t0):
     ctx.coverage["lsan_second_opinion"] = ls_counts
     ctx.coverage["monitor_vs_lsan_disagreements"] = disagree
     ctx.coverage["distinct_failure_mechanisms"] = sorted(findings) + sorted(lfind)
+    ctx.coverage["failing_traces"] = {"total": len(failing), "not_re-run_for_attribution": unattributed}
     ctx.coverage["timing_s"] = {"proofs+builds+generate": round(t_gen - t0, 1), "memdrive+monitor": round(t_run - t_gen, 1),
                                 "attribute+shrink": round(t_ls0 - t_run, 1), "lsan": round(time.time() - t_ls0, 1), "total": round(time.time() - t0, 1)}
